@@ -228,3 +228,53 @@ package rockredis
 //@   requires dt == HashType || dt == SetType || dt == ZSetType
 //@   requires smallTK(table, key)
 //@   ensures lexLE(start, ek) && lexLess(ek, stop)
+
+// ---- order-preserving (memcmp) integer codec ----
+// flipping the sign bit maps int64 order onto uint64 order: enc(v) = v + 2^63
+//@ func encodeIntToCmpUint(v int64) uint64
+//@   ensures result == v + 9223372036854775808
+//@ func decodeCmpUintToInt(u uint64) int64
+//@   ensures result == u - 9223372036854775808
+
+//@ func EncodeInt(b []byte, v int64) []byte
+//@   ensures len(result) == len(b) + 8 && eqAt(result, 0, b) && be64(result, len(b)) == v + 9223372036854775808
+//@   modifies b[len(b):len(b)+8]
+//@ func EncodeIntDesc(b []byte, v int64) []byte
+//@   ensures len(result) == len(b) + 8 && eqAt(result, 0, b) && be64(result, len(b)) == 18446744073709551615 - (v + 9223372036854775808)
+//@   modifies b[len(b):len(b)+8]
+//@ func DecodeInt(b []byte) ([]byte, int64, error)
+//@   ensures result2 == nil <==> len(b) >= 8
+//@   ensures result2 == nil ==> result1 == be64(b, 0) - 9223372036854775808 && sameSlice(result0, b[8:len(b)])
+//@ func DecodeIntDesc(b []byte) ([]byte, int64, error)
+//@   ensures result2 == nil <==> len(b) >= 8
+//@   ensures result2 == nil ==> result1 == (18446744073709551615 - be64(b, 0)) - 9223372036854775808 && sameSlice(result0, b[8:len(b)])
+//@ func EncodeUint(b []byte, v uint64) []byte
+//@   ensures len(result) == len(b) + 8 && eqAt(result, 0, b) && be64(result, len(b)) == v
+//@   modifies b[len(b):len(b)+8]
+//@ func EncodeUintDesc(b []byte, v uint64) []byte
+//@   ensures len(result) == len(b) + 8 && eqAt(result, 0, b) && be64(result, len(b)) == 18446744073709551615 - v
+//@   modifies b[len(b):len(b)+8]
+//@ func DecodeUint(b []byte) ([]byte, uint64, error)
+//@   ensures result2 == nil <==> len(b) >= 8
+//@   ensures result2 == nil ==> result1 == be64(b, 0) && sameSlice(result0, b[8:len(b)])
+//@ func DecodeUintDesc(b []byte) ([]byte, uint64, error)
+//@   ensures result2 == nil <==> len(b) >= 8
+//@   ensures result2 == nil ==> result1 == 18446744073709551615 - be64(b, 0) && sameSlice(result0, b[8:len(b)])
+
+//@ lemma lemmaIntCodecRoundTrip(pre []byte, v int64) ([]byte, int64, error)
+//@   ensures result2 == nil && result1 == v && len(result0) == 0
+//@   modifies pre[len(pre):len(pre)+8]
+//@ lemma lemmaIntDescCodecRoundTrip(pre []byte, v int64) ([]byte, int64, error)
+//@   ensures result2 == nil && result1 == v && len(result0) == 0
+//@   modifies pre[len(pre):len(pre)+8]
+//@ lemma lemmaUintCodecRoundTrip(pre []byte, v uint64) ([]byte, uint64, error)
+//@   ensures result2 == nil && result1 == v && len(result0) == 0
+//@   modifies pre[len(pre):len(pre)+8]
+// big-endian numeric order is byte-wise lexicographic order (pure fact)
+//@ lemma lemmaBE64Lex(a []byte, b []byte)
+//@   requires len(a) == 8 && len(b) == 8
+//@   ensures be64(a, 0) < be64(b, 0) <==> lexLess(a, b)
+//@ lemma lemmaIntCodecOrder(v1 int64, v2 int64) ([]byte, []byte)
+//@   ensures v1 < v2 <==> lexLess(result0, result1)
+//@ lemma lemmaIntDescCodecOrder(v1 int64, v2 int64) ([]byte, []byte)
+//@   ensures v1 > v2 <==> lexLess(result0, result1)
